@@ -581,6 +581,55 @@ pub fn build_stdin_pair(stats: &mut Stats, v1: bool) -> Option<Built> {
     Some(Built { h, expected })
 }
 
+/// A file node that carries a `subtree` (no archiver of rustic writes one, but `ReadSource` is a public trait and the
+/// archiver stores the node as it comes; the node streamers of ls / restore follow the subtree of *any* node).
+#[derive(Clone, Debug)]
+pub struct FileWithSubtreeSource {
+    pub name: String,
+    pub content: Vec<u8>,
+    pub mtime_s: i64,
+    pub subtree: rustic_core::TreeId,
+}
+impl ReadSource for FileWithSubtreeSource {
+    type Open = std::io::Cursor<Vec<u8>>;
+    type Iter = std::vec::IntoIter<RusticResult<ReadSourceEntry<Self::Open>>>;
+    fn size(&self) -> RusticResult<Option<u64>> {
+        Ok(None)
+    }
+    fn entries(&self) -> Self::Iter {
+        let mut e = SrcEntry::file(&[self.name.as_bytes()], &self.content);
+        e.mtime_s = self.mtime_s;
+        e.ctime_s = self.mtime_s;
+        let mut node = MemSource::node_of(&e);
+        node.subtree = Some(self.subtree);
+        vec![Ok(ReadSourceEntry { path: PathBuf::from(&self.name), node, open: Some(std::io::Cursor::new(self.content.clone())) })].into_iter()
+    }
+}
+
+/// Two same-size tree packs holding one tree each (as in `build_stdin_pair`), whose snapshots are then forgotten; a
+/// third snapshot reaches the first tree only through the `subtree` of a *file* node.
+pub fn build_file_subtree(stats: &mut Stats, v1: bool) -> Option<Built> {
+    let mut cfg = ConfigOptions::default();
+    if !v1 {
+        cfg.set_compression = Some(0);
+    }
+    let h = init_repo(&cfg, v1)?;
+    let mut snaps = vec![];
+    for (k, c) in [b"AAAAA", b"BBBBB"].iter().enumerate() {
+        let repo = open_nc(&h).ok()?.to_indexed_ids().ok()?;
+        let s = SingleFileSource { name: "stdin".into(), content: c.to_vec(), mtime_s: 1_600_000_000 + k as i64 };
+        snaps.push(repo.archive(&BackupOptions::default(), &s, SnapshotFile::default(), &[PathBuf::from("stdin")]).ok()?);
+    }
+    let repo = open_nc(&h).ok()?.to_indexed_ids().ok()?;
+    let s = FileWithSubtreeSource { name: "odd".into(), content: b"CCCCCCC".to_vec(), mtime_s: 1_600_000_009, subtree: snaps[0].tree };
+    _ = repo.archive(&BackupOptions::default(), &s, SnapshotFile::default(), &[PathBuf::from("odd")]).ok()?;
+    let repo = open_nc(&h).ok()?;
+    repo.delete_snapshots(&[snaps[0].id, snaps[1].id]).ok()?;
+    stats.hit("repo.file-node-with-subtree");
+    let expected = all_digests(&h).ok()?;
+    Some(Built { h, expected })
+}
+
 pub fn build_repo(rng: &mut Rng, stats: &mut Stats, force_stdin: bool) -> Option<Built> {
     let (cfg, v1) = cfg_opts(rng, stats);
     let Some(h) = init_repo(&cfg, v1) else {
@@ -821,6 +870,9 @@ pub fn generate(thorough: bool, rng: &mut Rng, ops: &mut Vec<String>, stats: &mu
             build_stdin_pair(stats, rng.chance(1, 2))
         } else if r % 4 == 2 {
             build_pruned(rng, stats)
+        } else if r == 3 {
+            // … the fourth one reaches a tree only through the subtree of a file node
+            build_file_subtree(stats, rng.chance(1, 2))
         } else {
             build_repo(rng, stats, r == 1)
         };
